@@ -35,7 +35,7 @@ func init() {
 		Old: "		cdcEncode(h.LastResultsHash),\n		cdcEncode(h.EvidenceHash),", New: "		cdcEncode(h.LastResultsHash),\n		cdcEncode(h.LastResultsHash),"})
 	// neutral: extract the validation panic into a helper; rename local
 	addWitness(Witness{Name: "neutral-extract-validate-helper", Prop: "C01", Kind: "neutral", File: st,
-		Old: "	if err := cs.blockExec.ValidateBlock(cs.state, block); err != nil {\n		panic(fmt.Errorf(\"+2/3 committed an invalid block: %w\", err))\n	}",
-		New: "	cs.mustBeValid(block)",
+		Old:  "	if err := cs.blockExec.ValidateBlock(cs.state, block); err != nil {\n		panic(fmt.Errorf(\"+2/3 committed an invalid block: %w\", err))\n	}",
+		New:  "	cs.mustBeValid(block)",
 		More: []Edit{{st, "// Increment height and goto cstypes.RoundStepNewHeight\nfunc (cs *State) finalizeCommit(", "func (cs *State) mustBeValid(b *types.Block) {\n	if err := cs.blockExec.ValidateBlock(cs.state, b); err != nil {\n		panic(fmt.Errorf(\"+2/3 committed an invalid block: %w\", err))\n	}\n}\n\n// Increment height and goto cstypes.RoundStepNewHeight\nfunc (cs *State) finalizeCommit("}}})
 }
